@@ -21,6 +21,9 @@ pub enum ProcCase {
         label: String,
         /// files inside ws/ (name, stored bytes)
         files: Vec<(String, Vec<u8>)>,
+        /// static oddities of the directory (dangling symlink, empty directory, …)
+        #[serde(default)]
+        extras: Vec<crate::world::Extra>,
         cmd: String,
         /// arguments relative to the case directory
         args: Vec<String>,
@@ -96,7 +99,7 @@ fn viol(prop: &str, what: &str, detail: String) -> Violation {
 }
 
 fn run_cli_case(prop: &str, bin: &Path, dir: &Path, case: &ProcCase) -> Option<Violation> {
-    let ProcCase::Cli { label, files, cmd, args, predicted_ok, predicted_codes, .. } = case else { return None };
+    let ProcCase::Cli { label, files, extras, cmd, args, predicted_ok, predicted_codes, .. } = case else { return None };
     let ws = dir.join("ws");
     std::fs::create_dir_all(&ws).ok()?;
     for (name, bytes) in files {
@@ -105,6 +108,27 @@ fn run_cli_case(prop: &str, bin: &Path, dir: &Path, case: &ProcCase) -> Option<V
             std::fs::create_dir_all(parent).ok()?;
         }
         std::fs::write(path, bytes).ok()?;
+    }
+    for e in extras {
+        use crate::world::Extra;
+        match e {
+            Extra::EmptyDir(n) => {
+                let _ = std::fs::create_dir_all(ws.join(n));
+            }
+            Extra::SubDirWithFile(n) => {
+                let _ = std::fs::create_dir_all(ws.join(n));
+                let _ = std::fs::write(ws.join(n).join("inner.st"), b"PROGRAM inner\nVAR\n k : INT;\nEND_VAR\nEND_PROGRAM\n");
+            }
+            Extra::DanglingSymlink(n) => {
+                let _ = std::os::unix::fs::symlink("/nonexistent/simplc", ws.join(n));
+            }
+            Extra::SymlinkLoop(n) => {
+                let _ = std::os::unix::fs::symlink(ws.join(n), ws.join(n));
+            }
+            Extra::SymlinkToFile(n, target) => {
+                let _ = std::os::unix::fs::symlink(ws.join(target), ws.join(n));
+            }
+        }
     }
     let tmp = dir.join("tmp");
     std::fs::create_dir_all(&tmp).ok()?;
